@@ -577,11 +577,11 @@ func main() {
 				r.Sample(c)
 			}
 		}
-		hops := r.N(20000, 100000)
+		hops, hcases := r.N(20000, 50000), r.N(12, 24)
 		if *concOnly {
-			hops = 5000 // the race-detector phase
+			hops, hcases = 3000, 4 // the race-detector phase
 		}
-		for i := 0; i < r.N(12, 40); i++ {
+		for i := 0; i < hcases; i++ {
 			idx++
 			if !r.Mine(idx) {
 				continue
